@@ -116,17 +116,7 @@ func runC19(c *Ctx) {
 	c.R.Floor(r1, 13)
 
 	const r2 = "C19.R2 prefix and wildcard matching"
-	c.Has(r2, "wamp.(URI).PrefixMatch", "topic starts with the prefix", `^return:call:strings\.HasPrefix\(%u, %prefix\)$`, 1)
-	wm := "wamp.(URI).WildcardMatch"
-	up, wp := `call:strings\.Split\(%u, "\."\)`, `call:strings\.Split\(%wildcard, "\."\)`
-	idx := `\(phi\(\(phi↺ \+ 1\)\|-1\) \+ 1\)`
-	c.Guard(r2, wm, "match", `^return:true$`, 1,
-		clause("same number of components", T(`^\(call:builtin:len\(`+up+`\) == call:builtin:len\(`+wp+`\)\)$`)),
-		clause("every pattern component was examined", F(`^\(`+idx+` < call:builtin:len\(`+wp+`\)\)$`)))
-	mismatch := clause("a non-empty pattern component differs", F(`^\(`+up+`\[`+idx+`\] == `+wp+`\[`+idx+`\]\)$`))
-	c.Reach(r2, wm, "a differing non-empty component rejects", ReachSpec{FromEdge: &mismatch, Target: `^return:true$|^val:phi`, Want: false})
-	c.Guard(r2, wm, "component comparison", `^val:\((`+up+`\[`+idx+`\] != `+wp+`\[`+idx+`\]|`+wp+`\[`+idx+`\] != `+up+`\[`+idx+`\])\)$`, 1, clause("pattern component is not empty", F(`^\(`+wp+`\[`+idx+`\] == ""\)$`)))
-	c.Has(r2, wm, "loop covers the components from the first one", `^val:\(`+idx+` < call:builtin:len\(`+wp+`\)\)$`, 1)
+	ruleMatchFunctions(c, r2)
 	c.R.Floor(r2, 6)
 
 	const r3 = "C19.R3 id range and generators"
@@ -171,4 +161,20 @@ func runC19(c *Ctx) {
 		c.R.Check(ok, r3, "wamp.Session", "session request ids come from the synchronised generator", "-", "Session.IDGen is not a SyncIDGen: concurrent API calls can draw the same request id")
 	}
 	c.R.Floor(r3, 16)
+}
+
+// ruleMatchFunctions: PrefixMatch is strings.HasPrefix; WildcardMatch compares component counts and every non-empty
+// pattern component for equality, from the first component on.
+func ruleMatchFunctions(c *Ctx, r2 string) {
+	c.Has(r2, "wamp.(URI).PrefixMatch", "topic starts with the prefix", `^return:call:strings\.HasPrefix\(%u, %prefix\)$`, 1)
+	wm := "wamp.(URI).WildcardMatch"
+	up, wp := `call:strings\.Split\(%u, "\."\)`, `call:strings\.Split\(%wildcard, "\."\)`
+	idx := `\(phi\(\(phi↺ \+ 1\)\|-1\) \+ 1\)`
+	c.Guard(r2, wm, "match", `^return:true$`, 1,
+		clause("same number of components", T(`^\(call:builtin:len\(`+up+`\) == call:builtin:len\(`+wp+`\)\)$`)),
+		clause("every pattern component was examined", F(`^\(`+idx+` < call:builtin:len\(`+wp+`\)\)$`)))
+	mismatch := clause("a non-empty pattern component differs", F(`^\(`+up+`\[`+idx+`\] == `+wp+`\[`+idx+`\]\)$`))
+	c.Reach(r2, wm, "a differing non-empty component rejects", ReachSpec{FromEdge: &mismatch, Target: `^return:true$|^val:phi`, Want: false})
+	c.Guard(r2, wm, "component comparison", `^val:\((`+up+`\[`+idx+`\] != `+wp+`\[`+idx+`\]|`+wp+`\[`+idx+`\] != `+up+`\[`+idx+`\])\)$`, 1, clause("pattern component is not empty", F(`^\(`+wp+`\[`+idx+`\] == ""\)$`)))
+	c.Has(r2, wm, "loop covers the components from the first one", `^val:\(`+idx+` < call:builtin:len\(`+wp+`\)\)$`, 1)
 }
